@@ -45,6 +45,28 @@ Theorem C16_write_detects_any_policy : forall p le, policy_ok p = true -> forall
 Proof. exact writer_detects. Qed.
 Print Assumptions C16_write_detects_any_policy.
 
+(* no false alarm: Write / Flush fail only if the sink's fault was actually hit, and a
+   healthy sink receives the complete output (so the theorems above are not satisfied
+   by a model that always fails) *)
+Theorem C16_write_no_false_error : forall le recs fo,
+  let r := writer_run current_wpolicy le recs fo in
+  s_tripped (wr_sink r) = false ->
+  wr_write r = None /\ wr_flush r = None /\ s_got (wr_sink r) = full_output le recs.
+Proof. exact current_writer_no_false_error. Qed.
+Print Assumptions C16_write_no_false_error.
+
+Theorem C16_write_healthy : forall le recs,
+  let r := writer_run current_wpolicy le recs None in
+  wr_write r = None /\ wr_flush r = None /\ s_got (wr_sink r) = full_output le recs.
+Proof. exact current_writer_healthy. Qed.
+Print Assumptions C16_write_healthy.
+
+(* the explicit recursion fuel of the model's WriteString loop is never exhausted *)
+Theorem C16_model_fuel_enough : forall le recs fo,
+  let r := writer_run current_wpolicy le recs fo in wr_write r <> Some EFuel /\ wr_flush r <> Some EFuel.
+Proof. exact current_fuel_enough. Qed.
+Print Assumptions C16_model_fuel_enough.
+
 (* the checker's demands are needed: dropping the final Flush result, or answering a
    failed padding WriteString with `return nil`, reports success for partial output *)
 Theorem C16_write_ignored_final_flush_refuted :
